@@ -235,6 +235,12 @@ def failed_attempts(b, spec):
                 ut.add_worm_gear_mating(master=s_, slave=m, friction_coefficient=rng.choice([0.999, 1, 1.0]))
             elif rel['type'] == 'worm':
                 ut.add_worm_gear_mating(master=m, slave=s_, friction_coefficient=rng.choice([1.5, -0.2, 0.999, 1, '0.3', None]))
+            elif rel['type'] == 'gear' and rng.random() < 0.5:
+                # ... the refused call names ANOTHER master (a spare gear with other teeth): were it to leave traces, the chain
+                # would be re-routed and its ratio changed
+                ch_ = [spec['motor']] + list(spec['chain'])
+                spare = make_element(dict(ch_[i], name='spare', z=ch_[i]['z'] + 7))
+                ut.add_gear_mating(master=spare, slave=s_, efficiency=rng.choice([1.2, -0.1, None, '0.9']))
             elif rel['type'] == 'gear':
                 ut.add_gear_mating(master=m, slave=s_, efficiency=rng.choice([1.2, -0.1, None, '0.9', 1.0000001]))
             else:
@@ -630,6 +636,23 @@ def run_schedule(b, on_capture=None):
             if on_capture:
                 on_capture(b)
             b.pt.reset()
+            runs = []
+            b.rule_log_mark, b.probe_log_mark, b.load_log_mark = len(b.rule_log), len(b.probe_log), len(b.load_log)
+        elif o == 'newpowertrain':
+            # the user assembles a NEW Powertrain object from the same (already simulated) motor and resets through it: it shares
+            # the elements, so this is a reset like any other and the next history starts afresh. With a controller / stop
+            # condition bound to the old object the plain reset is used instead.
+            b.captures.append((extract(b, raw=getattr(b, 'raw_capture', False)), list(runs)))
+            if on_capture:
+                on_capture(b)
+            if b.control is None and (b.stop is None or getattr(b, 'is_probe', False)):
+                b.old_pt = b.pt
+                b.pt = g().Powertrain(motor=b.motor)
+                b.pt.reset()
+                b.solver = g().Solver(powertrain=b.pt)
+                b.new_powertrains = getattr(b, 'new_powertrains', 0) + 1
+            else:
+                b.pt.reset()
             runs = []
             b.rule_log_mark, b.probe_log_mark, b.load_log_mark = len(b.rule_log), len(b.probe_log), len(b.load_log)
         elif o == 'reapply':
